@@ -721,3 +721,5 @@ def run(ck: Checker) -> None:
     ck.guard("R-ID-DET", lambda: r_id_det(ck))
     ck.guard("R-GET-FORM", lambda: r_get_form(ck))
     ck.guard("R-PRESENCE", lambda: T.r_presence(ck))
+    ck.guard("R-FLAGS-TT", lambda: T.r_flags_tt(ck))  # the id digest reads the comparable properties through the generated accessor
+    ck.guard("R-TYPES-CACHE", lambda: T.r_types_cache(ck))
